@@ -865,50 +865,67 @@ func (e *Engine) selectOp(st *State, f *Frame, in *ssa.Select) {
 		}
 		return r
 	}
-	for i, s := range in.States {
-		ch := e.val(st, f, s.Chan).(ChanRef)
-		if ch.Obj == 0 {
-			continue
-		}
-		cv := st.heap[ch.Obj]
-		if nv, ok := cv.(NativeV); ok {
-			// native pseudo channel (timer, ctx.Done): readiness is decided by the native hook
-			if ready, val := e.nativeChanReady(st, nv); ready {
-				e.setEnv(st, f, in, mk(i, true, map[int]Value{i: val}))
-				f.pc++
-				return
+	// two passes: real channels first, timers (ready only when nothing else is) second
+	for pass := 0; pass < 2; pass++ {
+		for i, s := range in.States {
+			ch := e.val(st, f, s.Chan).(ChanRef)
+			if ch.Obj == 0 {
+				continue
 			}
-			continue
-		}
-		chv := cv.(ChanV)
-		if s.Dir == types.SendOnly {
-			if chv.Closed {
-				e.runtimePanic(st, "send on closed channel")
-				return
+			cv := st.heap[ch.Obj]
+			if nv, ok := cv.(NativeV); ok {
+				if nv.Tag == "chan-timer" {
+					if pass == 1 {
+						e.setEnv(st, f, in, mk(i, true, map[int]Value{i: StructV{}}))
+						f.pc++
+						return
+					}
+					continue
+				}
+				if pass == 1 {
+					continue
+				}
+				// native pseudo channel: readiness is decided by the native hook
+				if ready, val := e.nativeChanReady(st, nv); ready {
+					e.setEnv(st, f, in, mk(i, true, map[int]Value{i: val}))
+					f.pc++
+					return
+				}
+				continue
 			}
-			if len(chv.Q) < chv.Cap {
-				v := e.val(st, f, s.Send)
-				chv.Q = append(append([]Value(nil), chv.Q...), v)
-				st.dirty = true
-				st.heap[ch.Obj] = chv
-				f.env[in] = mk(i, false, nil)
-				f.pc++
-				return
+			if pass == 1 {
+				continue
 			}
-		} else {
-			if len(chv.Q) > 0 {
-				v := chv.Q[0]
-				chv.Q = append([]Value(nil), chv.Q[1:]...)
-				st.dirty = true
-				st.heap[ch.Obj] = chv
-				f.env[in] = mk(i, true, map[int]Value{i: v})
-				f.pc++
-				return
-			}
-			if chv.Closed {
-				e.setEnv(st, f, in, mk(i, false, nil))
-				f.pc++
-				return
+			chv := cv.(ChanV)
+			if s.Dir == types.SendOnly {
+				if chv.Closed {
+					e.runtimePanic(st, "send on closed channel")
+					return
+				}
+				if len(chv.Q) < chv.Cap {
+					v := e.val(st, f, s.Send)
+					chv.Q = append(append([]Value(nil), chv.Q...), v)
+					st.dirty = true
+					st.heap[ch.Obj] = chv
+					f.env[in] = mk(i, false, nil)
+					f.pc++
+					return
+				}
+			} else {
+				if len(chv.Q) > 0 {
+					v := chv.Q[0]
+					chv.Q = append([]Value(nil), chv.Q[1:]...)
+					st.dirty = true
+					st.heap[ch.Obj] = chv
+					f.env[in] = mk(i, true, map[int]Value{i: v})
+					f.pc++
+					return
+				}
+				if chv.Closed {
+					e.setEnv(st, f, in, mk(i, false, nil))
+					f.pc++
+					return
+				}
 			}
 		}
 	}
